@@ -15,6 +15,7 @@ structure HState where
   ids : List (String × Nat) := []          -- handle name → object id (latest binding first)
   bound : Option Nat := none               -- C07: allowed hash calls since the last hcount (none = unbounded)
   partialTree : Bool := false              -- C12: some backing has been summarised: errors are allowed, wrong data is not
+  h : HashFn := Sha.sha256Pair             -- the pair hash of this history (`begin [sha|z|alt]`)
 
 def sha : HashFn := Sha.sha256Pair
 
@@ -141,10 +142,10 @@ def verdict (partialTree : Bool) (impl : List String) (spec : Out) : String :=
 /-- run one machine op on both machines -/
 def both (s : HState) (op : Op) (impl : List String) (newName : Option String := none)
     (mutated : Option Nat := none) : HState × String × String :=
-  let (ms', om) := stepM sha s.ms op
+  let (ms', om) := stepM s.h s.ms op
   -- on a summarised backing an erring mutation must leave the value unchanged
   let skipV := s.partialTree && impl == ["err"] && mutated.isSome
-  let (vs', ov) := if skipV then (s.vs, Out.err) else stepV sha s.vs op
+  let (vs', ov) := if skipV then (s.vs, Out.err) else stepV s.h s.vs op
   let created := ms'.size > s.ms.size
   let s1 : HState := { s with ms := ms', vs := vs' }
   let s2 := match newName with
@@ -169,14 +170,19 @@ where stepH (s : HState) (name : String) (args impl : List String) : Except Stri
     | none => pure (s, "nohandle", "ok")
     | some id => k id
   match name, args with
-  | "begin", _ => return ({}, "ok", "ok")
+  | "begin", hn =>
+    let h : HashFn := match hn.head? with
+      | some "z" => Sha.zHash
+      | some "alt" => Sha.altHash
+      | _ => sha
+    return ({ h := h }, "ok", "ok")
   | "mk", hn :: route :: rest =>
     let (t, rest) ← runP ty rest
     let v ← if route == "def" then pure (defaultVal t) else (do let (v, _) ← runP val rest; pure v)
     let r : R Node := match route with
-      | "new" => construct sha t v
-      | "def" => defaultNode sha t
-      | "dec" => decodeTop sha t (serialize t v)
+      | "new" => construct s.h t v
+      | "def" => defaultNode s.h t
+      | "dec" => decodeTop s.h t (serialize t v)
       | _ => .error .other
     match r with
     | .error e => return (s, render (outOfErr e), if impl == ["ok"] then "ok" else "FAIL:construction-failed")
@@ -261,11 +267,11 @@ where stepH (s : HState) (name : String) (args impl : List String) : Except Stri
   | "sum", h1 :: _ :: gs =>
     withId h1 fun id => do
       let o := s.ms[id]!
-      let r : R Node := gs.foldlM (fun n g => summarizeInto sha n (gbits ((g.toNat?).getD 1))) o.node
+      let r : R Node := gs.foldlM (fun n g => summarizeInto s.h n (gbits ((g.toNat?).getD 1))) o.node
       match r with
       | .error e => pure (s, render (outOfErr e), if impl == ["panic"] then "FAIL:panic" else "ok")
       | .ok n' =>
-        let (st', err) := setBacking sha (s.ms.size + 1) s.ms id n'
+        let (st', err) := setBacking s.h (s.ms.size + 1) s.ms id n'
         let m := match err with | none => "ok" | some e => render (outOfErr e)
         pure ({ s with ms := st', partialTree := true }, m, if impl == ["panic"] then "FAIL:panic" else "ok")
   | "snap", _ :: h1 :: _ => withId h1 fun _ => pure (s, "ok", if impl == ["ok"] then "ok" else "FAIL:snapshot")
@@ -280,7 +286,7 @@ where stepH (s : HState) (name : String) (args impl : List String) : Except Stri
         | ["ok", root, calls, again] =>
           let c := ((calls.drop 6).toString.toNat?).getD 0
           let a := ((again.drop 6).toString.toNat?).getD 1
-          if root != hex (o.node.root sha) then "FAIL:root"
+          if root != hex (o.node.root s.h) then "FAIL:root"
           else if a != 0 then s!"FAIL:second-request-hashed-{a}"
           else match s.bound with
             | some b => if c ≤ b then "ok" else s!"FAIL:hash-calls-{c}-exceed-path-bound-{b}"
@@ -334,7 +340,7 @@ where stepH (s : HState) (name : String) (args impl : List String) : Except Stri
       let (s', om, _) := both s (mkOp id) [] none (some id)
       let o' := s'.ms[id]!
       let v1 := (s'.vs[id]!).val
-      let vOut := (stepV sha s.vs (mkOp id)).2
+      let vOut := (stepV s.h s.vs (mkOp id)).2
       let itk' := match itk with | .indexed t _ ln i => Iter.AnyIt.indexed t o'.node ln i | x => x
       let outs2 := collectX 100000 0 none itk'
       let m := renderOuts outs1 ++ " m=" ++ om ++ (renderOuts outs2).drop 2
